@@ -3,7 +3,7 @@
 Runs under the real interpreter inside a staged environment (see stage.py).  Everything is read
 from live objects: spil.conf, the resolva.Resolver instances, the PathConfig objects.
 """
-import sys, json, re, unicodedata
+import sys, os, json, re, unicodedata
 import re._parser as sre_parse
 import re._constants as sre_c
 
@@ -266,12 +266,18 @@ def main():
         out.setdefault("path_config_names", []).append([name, pc.name])
         out["path_resolvers"].append(pr)
         mapping = []
+        allow = os.environ.get("SPIL_VERIF_ALLOW_UNMODELLED") == "1"    # oracle-only runs: no model of these features
         for k, v in pc.path_mapping.items():
             if not isinstance(k, str):
+                if allow:
+                    out.setdefault("unmodelled", []).append("typed path_mapping key %r in %s" % (k, name))
+                    continue
                 raise OutOfSubset("typed path_mapping key %r" % (k,))
             mapping.append([k, pairs(v)])
         if pc.sidkeys_to_extrakeys or pc.extrakeys_to_sidkeys:
-            raise OutOfSubset("extra keys")
+            if not allow:
+                raise OutOfSubset("extra keys")
+            out.setdefault("unmodelled", []).append("extra keys in %s" % name)
         out["conf"]["paths"].append({
             "name": name,
             "templates": [[l["label"], l["tokens"]] for l in pr["labels"]],
